@@ -20,3 +20,5 @@ for goal in sys.argv[5:]:
     g=ex.spec_truth(goal, env, st)
     s=z3.Solver(); s.set("timeout",10000); s.add(z3.simplify(z3.And(*ob.hyps, *ex.axioms, z3.Not(g))))
     t=time.time(); r=s.check(); print(r, round(time.time()-t,2), goal[:150])
+    if str(r) == "unknown":
+        t=time.time(); print("   cvc5:", solve.run_cvc5(s.to_smt2(), 20), round(time.time()-t,2))
